@@ -33,7 +33,7 @@ ASSUMPTIONS = [
 ]
 DECIDING = ['udpcl.agent:Agent._send_transfer', 'udpcl.agent:Agent._recv_datagram', 'udpcl.agent:Agent._recv_ext_map',
             'udpcl.agent:Agent._process_tx_queue', 'udpcl.agent:TxSendWait._update_send', 'udpcl.agent:range_encode']
-REQUIRED_OBS = ['sends', 'segmented_sends', 'segments_checked', 'receive_histories', 'multi_message_datagrams', 'repeats_injected',
+REQUIRED_OBS = ['sends', 'receives_with_own_mtu', 'segmented_sends', 'segments_checked', 'receive_histories', 'multi_message_datagrams', 'repeats_injected',
                 'range_roundtrips']
 
 PEER = ('10.0.0.9', 5555)
@@ -229,9 +229,12 @@ def check_receive_late(arrivals, originals, obs):
         node.close()
 
 
-def check_receive(arrivals, originals, obs, compose=None):
-    ''' arrivals: list of (key, lo, hi, datagram, peer); originals: key -> bundle bytes. key = (peer, xid) '''
-    node = UdpNode(None)
+def check_receive(arrivals, originals, obs, compose=None, rx_mtu=None):
+    ''' arrivals: list of (key, lo, hi, datagram, peer); originals: key -> bundle bytes. key = (peer, xid)
+    :param rx_mtu: the receiver's own (transmit) MTU setting; what it can receive does not depend on it. '''
+    node = UdpNode(rx_mtu)
+    if rx_mtu is not None:
+        obs['receives_with_own_mtu'] = obs.get('receives_with_own_mtu', 0) + 1
     problems = []
     try:
         coverage = {key: set() for key in originals}
@@ -515,6 +518,10 @@ def run_case(case):
             key = arrivals[0][0]
             rng.shuffle(arrivals)
             note(check_receive(arrivals, {key: bundle}, obs), 'loop', dict(total=total, mtu=mtu, n=len(arrivals)), 'loop|%d|%d|%d' % (total, mtu, case['seed']))
+            # the same at a receiver whose own MTU setting is smaller than (or equal to, or far above) the datagrams it is sent
+            for rx_mtu in (40, rng.choice([mtu // 2, mtu - 1, mtu, 9000])):
+                note(check_receive(arrivals, {key: bundle}, obs, rx_mtu=rx_mtu), 'loop-rx-mtu', dict(total=total, mtu=mtu, rx_mtu=rx_mtu, n=len(arrivals)),
+                     'loop-rx|%d|%d|%d|%d' % (total, mtu, rx_mtu, case['seed']))
     elif kind == 'ranges':
         import portion
         import udpcl.agent
